@@ -26,7 +26,7 @@ LEVEL = "fault_enumeration"
 RULE = ("systematic sweep of the per-POST behaviour matrix (status x content-type x body kind x SSE encoding x exception x session header, one "
         "request and one notification each) + seeded sequences of 1..4 (thorough 6) messages with random behaviours/latencies; "
         "non-trivial = at least one POST was answered by something other than a plain 200 JSON response")
-PROBES = ["sse_without_event_field", "sse_no_space_after_data", "sse_crlf", "sse_comment_lines", "sse_multiline_data", "sse_multi_event",
+PROBES = ["line_separator_chars_in_payload", "sse_without_event_field", "sse_no_space_after_data", "sse_crlf", "sse_comment_lines", "sse_multiline_data", "sse_multi_event",
           "json_batch_body", "error_status", "transport_exception", "timeout", "redirect_followed", "session_id_changed",
           "request_after_failure_answered", "empty_body", "notification_post_failed", "int_request_id"]
 TIERS = {"quick": {"runs": 12000, "wall": 45.0}, "thorough": {"runs": 600000, "wall": 560.0}}
@@ -126,7 +126,7 @@ def systematic(tier: str):
                     m["beh"]["then"] = _mk(202, None, "empty")["beh"] if notif else _mk(200, "application/json", "response")["beh"]
                 out.append({"v": 1, "timeout": 2.0, "msgs": [m, copy.deepcopy(follow)], "init_session": None})
     for e in sse_variants:
-        for body in ["response", "notifs_then_response", "error_response"]:
+        for body in ["response", "notifs_then_response", "error_response", "unicode_response"]:
             out.append({"v": 1, "timeout": 2.0, "msgs": [_mk(200, "text/event-stream", body, sse=e), copy.deepcopy(follow)], "init_session": None})
     for exc in ["ConnectError", "ConnectTimeout", "ReadTimeout", "RemoteProtocolError", "ReadError"]:
         for notif in (False, True):
@@ -167,14 +167,14 @@ def _messages_for(body, rid, k):
     if body == "response":
         return [resp]
     if body == "unicode_response":
-        return [{"jsonrpc": "2.0", "id": rid, "result": {"marker": mk, "text": "é€\U0001F600 "}}]
+        return [{"jsonrpc": "2.0", "id": rid, "result": {"marker": mk, "text": "é€\U0001F600 ls\u2028ps\u2029nel\u0085vt\u000bff\u000c end"}}]
     if body == "error_response":
         return [{"jsonrpc": "2.0", "id": rid, "error": {"code": -32001, "message": "server says no " + mk}}]
     if body == "batch":
         return [{"jsonrpc": "2.0", "method": "notifications/message", "params": {"data": mk}}, resp]
     if body == "notifs_then_response":
         return [{"jsonrpc": "2.0", "method": "notifications/progress", "params": {"progressToken": "t", "progress": 1, "marker": mk}},
-                {"jsonrpc": "2.0", "method": "notifications/message", "params": {"data": mk}}, resp]
+                {"jsonrpc": "2.0", "method": "notifications/message", "params": {"data": mk + " a\u2028b\u0085c"}}, resp]
     if body == "wrong_id":
         return [{"jsonrpc": "2.0", "id": "somebody-else", "result": {"marker": mk}}]
     if body == "notifs_only":
@@ -503,6 +503,8 @@ def execute(scn: dict) -> dict:
                 probe("sse_multi_event")
         if b["body"] == "batch" and "json" in ctype and b["status"] < 300 and not b.get("exc"):
             probe("json_batch_body")
+        if b["body"] in ("unicode_response", "notifs_then_response") and b["status"] < 300 and not b.get("exc"):
+            probe("line_separator_chars_in_payload")
         matched = None
         for alt in sorted(alts, key=len, reverse=True):
             seg = got[pos:pos + len(alt)]
